@@ -354,6 +354,14 @@ func TestVerifC32(t *testing.T) {
 			j := r.Intn(i + 1)
 			assigned[i], assigned[j] = assigned[j], assigned[i]
 		}
+		// 6% of the cases: one assigned id occurs twice (outside the property, which speaks of assigned sets; the
+		// model must still describe what the code does: the second moveAll destroys the shards just restored)
+		dupID := uint32(0)
+		if len(assigned) > 0 && r.Chance(6) {
+			dupID = assigned[r.Intn(len(assigned))]
+			assigned = append(assigned, dupID)
+			classes = append(classes, "duplicate-assigned-id")
+		}
 		isAssigned := map[uint32]bool{}
 		for _, id := range assigned {
 			isAssigned[id] = true
@@ -431,6 +439,11 @@ func TestVerifC32(t *testing.T) {
 			}
 			// not in the index before
 			if len(trashB[id]) > 0 && !trashOld(id) {
+				if id == dupID {
+					// assumption of assigned_restored_from_trash violated (C32_assigned_restored_duplicate_id_refuted)
+					classes = append(classes, "duplicate-assigned-id:in-trash")
+					continue
+				}
 				for _, f := range trashB[id] {
 					g := vfC32Find(after1.index, f.base)
 					if g == nil {
@@ -470,6 +483,20 @@ func TestVerifC32(t *testing.T) {
 				}
 				if best != nil && vfC32Find(after1.index, best.base) == nil {
 					key = fmt.Sprintf("not-untombstoned:compound-shard-deleted:shardMerging=%v", sm)
+					// the one remaining way to lose the selected shard: every repository alive in it is a renamed one
+					// (purged by "delete and start over" before the revival phase) and shard merging is off
+					alive, renamedOnly := 0, true
+					for _, e := range best.entries {
+						if !e.tomb {
+							alive++
+							if consistent(e.id) {
+								renamedOnly = false
+							}
+						}
+					}
+					if alive > 0 && renamedOnly {
+						key += ":only-alive-tenant-renamed"
+					}
 				}
 				vfOracleFail(key, fmt.Sprintf("assigned repository %d is only tombstoned in the index but was not revived", id), replay)
 			}
@@ -493,6 +520,9 @@ func TestVerifC32(t *testing.T) {
 			id := ids[0]
 			old, conflict := trashOld(id), len(aliveB[id]) > 0
 			restored := vfC32Find(after1.index, f.base) != nil && isAssigned[id]
+			if id == dupID && dupID != 0 {
+				continue
+			}
 			if g == nil && !old && !conflict && !restored {
 				vfOracleFail("trash-deleted-early", fmt.Sprintf("trashed shard %s (repository %d) deleted although fresh and not conflicting", f.base, id), replay)
 			}
